@@ -123,8 +123,14 @@ func ttlProbe(sc Scenario, i int, st *Stack, d *Driver, ob StepObs) []Violation 
 			a, ok := st.L1.Lookup(k)
 			b, ok2 := st.L2.Lookup(k)
 			if ok && ok2 && a.Deadline != b.Deadline {
+				sig := "l1-l2-deadline:" + s.Cmd.Kind
+				if d := b.Deadline - a.Deadline; b.Deadline > now+int64(thirtyDays) && a.Deadline > int64(thirtyDays) && d <= now && d >= now-2000000 {
+					// L1's deadline IS L2's remaining lifetime at the moment of an earlier back-fill, read
+					// as a date: finding D22 (more than 30 days were left), seen at a later step
+					sig = "backfill-ttl-over-30-days"
+				}
 				out = append(out, Violation{What: fmt.Sprintf("L1 holds key %q until %d, L2 until %d (now %d), after step %d", k, a.Deadline, b.Deadline, now, i),
-					Signature: "l1-l2-deadline:" + s.Cmd.Kind, Replay: map[string]interface{}{"step": i, "key": k, "l1_deadline": a.Deadline, "l2_deadline": b.Deadline, "now": now}})
+					Signature: sig, Replay: map[string]interface{}{"step": i, "key": k, "l1_deadline": a.Deadline, "l2_deadline": b.Deadline, "now": now}})
 			}
 		}
 		// back-fill writes: sets on L1 during a main-port get
@@ -254,6 +260,24 @@ func directedTTL(cfg StackCfg) []Scenario {
 	if cfg.Orca == "l1l2" && cfg.L1 == "chunked" {
 		out = append(out, remnantAdd(cfg, "C09-dir-remnant-add"))
 		out[len(out)-1].Probe = ttlProbe
+	}
+	if cfg.Orca == "l1l2" {
+		// one multi-key get back-fills two keys with different lifetimes (one of them permanent), in
+		// both orders: each L1 copy gets its own key's lifetime
+		ka, kb := []byte("a"), []byte("b")
+		la, lb := ka, kb
+		if cfg.L1 == "chunked" {
+			la, lb = []byte("a-meta"), []byte("b-meta")
+		}
+		for oi, order := range [][2][]byte{{ka, kb}, {kb, ka}} {
+			out = append(out, mk(fmt.Sprintf("C09-dir-backfill-two-%d", oi),
+				feed("b", Command{Kind: "set", Key: ka, Flags: 1, Exptime: 100, Data: []byte("with-ttl"), Opaque: 1}),
+				feed("b", Command{Kind: "set", Key: kb, Flags: 2, Exptime: 0, Data: []byte("permanent"), Opaque: 2}),
+				Step{Kind: "evict", Tier: "L1", Key: la},
+				Step{Kind: "evict", Tier: "L1", Key: lb},
+				feed("t", Command{Kind: "get", Keys: []GetKey{{Key: order[0]}, {Key: order[1]}}}),
+				feed("b", Command{Kind: "get", Keys: []GetKey{{Key: order[1], Opaque: 5, Quiet: true}, {Key: order[0], Opaque: 6}}})))
+		}
 	}
 	if cfg.Orca == "l1l2" {
 		// back-fill of items with various remaining lifetimes
